@@ -306,5 +306,9 @@ m("C16", "C16-yday-constant", "R16-time:osDate:field-components", ("oslib.go", "
 
 m("C18", "C18-sort-nil-comparator-checked", "R18-lib:tableSort:nil-comparator-is-no-comparator", ("tablelib.go", "\tif L.GetTop() != 1 && L.Get(2) != LNil {", "\tif L.GetTop() != 1 {"))
 m("C18", "C18-insert-extra-arguments", "R18-lib:tableInsert:two-or-three-arguments", ("tablelib.go", "\tif nargs != 2 && nargs != 3 {", "\tif nargs < 2 {"))
+
+for _p in ("C13", "C19"):
+    m(_p, _p + "-close-releases-standard-stream", "R19-reconcile:fileCloseAux:standard-stream-not-released", ("iolib.go", "\tif file.std {\n\t\t// closing it would close the descriptor for the whole process\n\t\tL.Push(LNil)\n\t\tL.Push(LString(\"cannot close standard file\"))\n\t\treturn 2\n\t}\n", ""))
+    m(_p, _p + "-standard-streams-not-marked", "R19-reconcile:OpenIo:marks-standard-streams", ("iolib.go", "\t\tfile.Value.(*lFile).std = true\n", ""))
 if __name__ == "__main__":
     main()
